@@ -68,8 +68,12 @@ pub fn exec(op: &str, a: &[String]) -> Option<Reply> {
             let Ok(program) = vrlrun::compile(&srct) else {
                 return Some(Reply::oracle(vec![b(same_compile), b(same_text), "-".into(), "-".into(), "rejected".into()]));
             };
-            // (2) fresh vs cleared runtime
-            let fresh = run_sig(&mut Runtime::default(), &program, &event, &metadata);
+            // (2) fresh vs cleared runtime. `fresh` uses its own compilation of the source, so that state
+            // kept inside a compiled `Program` (caches filled by earlier events) shows up as a difference
+            let fresh = match vrlrun::compile(&srct) {
+                Ok(p0) => run_sig(&mut Runtime::default(), &p0, &event, &metadata),
+                Err(_) => return None,
+            };
             let mut reused = Runtime::default();
             let k = 1 + rng.below(4);
             for _ in 0..k {
@@ -112,8 +116,86 @@ pub fn exec(op: &str, a: &[String]) -> Option<Reply> {
             }
             Some(Reply::oracle(vec![b(same_compile), b(same_text), b(cleared == fresh), b(threads_ok), "accepted".into()]))
         }
+        // one stdlib call whose arguments all depend on the event: the SAME compiled program processes
+        // event A and then event B; B's outcome must be what a freshly compiled program gives on B
+        ("o.c14.fn", [_fname, src, event_a, event_b]) => {
+            let srct = String::from_utf8(unhex(src)?).ok()?;
+            let ea = parse_value(event_a)?;
+            let eb = parse_value(event_b)?;
+            let md = Value::Object(Default::default());
+            let r = crate::sink::guarded(|| {
+                let p1 = vrlrun::compile(&srct).ok()?;
+                let p2 = vrlrun::compile(&srct).ok()?;
+                let mut rt = Runtime::default();
+                let _ = run_sig(&mut rt, &p1, &ea, &md);
+                rt.clear();
+                let reused = run_sig(&mut rt, &p1, &eb, &md);
+                let fresh = run_sig(&mut Runtime::default(), &p2, &eb, &md);
+                // and from two threads sharing p1 (each its own runtime)
+                let shared = Arc::new(p1);
+                let hs: Vec<_> = [ea.clone(), eb.clone()]
+                    .into_iter()
+                    .map(|e| {
+                        let p = Arc::clone(&shared);
+                        let ebc = eb.clone();
+                        std::thread::spawn(move || {
+                            let mut rt = Runtime::default();
+                            let md = Value::Object(Default::default());
+                            let _ = run_sig(&mut rt, &p, &e, &md);
+                            rt.clear();
+                            run_sig(&mut rt, &p, &ebc, &md)
+                        })
+                    })
+                    .collect();
+                let threads_ok = hs.into_iter().all(|h| h.join().map(|o| o == fresh).unwrap_or(false));
+                Some((reused == fresh, threads_ok))
+            });
+            match r {
+                Ok(Some((same, threads))) => Some(Reply::oracle(vec![b(same), b(threads)])),
+                Ok(None) => None,
+                Err(_) => Some(Reply::oracle(vec!["panic".into(), "-".into()])),
+            }
+        }
         _ => None,
     }
+}
+
+/// a call of `f` in which every argument depends on the event: runtime-typed ones are event fields,
+/// literal-only ones (and a share of the others) are `if .c<i> == true { L1 } else { L2 }`
+fn gen_dynamic_call(f: &dyn vrl::compiler::Function, rng: &mut Rng) -> Option<(String, Value, Value)> {
+    use crate::sweep::*;
+    let mut args: Vec<String> = Vec::new();
+    let mut ea = vrl::value::ObjectMap::new();
+    let mut eb = vrl::value::ObjectMap::new();
+    for (i, p) in f.parameters().iter().enumerate() {
+        if !p.required && rng.chance(1, 2) {
+            continue;
+        }
+        let allowed = kinds_of(p.kind);
+        if allowed.is_empty() {
+            return None;
+        }
+        let kind = *rng.pick(&allowed);
+        let text = if kind == K_REGEX || rng.chance(1, 2) {
+            let pool = literal_pool(kind);
+            let (l1, l2) = (*rng.pick(pool), *rng.pick(pool));
+            ea.insert(format!("c{i}").into(), Value::Boolean(rng.chance(1, 2)));
+            eb.insert(format!("c{i}").into(), Value::Boolean(rng.chance(1, 2)));
+            format!("(if .c{i} == true {{ {l1} }} else {{ {l2} }})")
+        } else {
+            ea.insert(format!("p{i}").into(), runtime_pool(kind, rng));
+            eb.insert(format!("p{i}").into(), runtime_pool(kind, rng));
+            format!(".p{i}")
+        };
+        if i > 0 && rng.chance(1, 3) || !p.required {
+            args.push(format!("{}: {}", p.keyword, text));
+        } else {
+            args.push(text);
+        }
+    }
+    let name = f.identifier();
+    let src = format!("{name}!({}){}", args.join(", "), closure_suffix(name));
+    Some((src, Value::Object(ea), Value::Object(eb)))
 }
 
 fn b(x: bool) -> String {
@@ -146,5 +228,31 @@ pub fn generate(sink: &mut Sink, rng: &mut Rng, n: u64) {
         }
         // the sequential result itself is compared with the model
         sink.emit("lang.run", &[hex(src.as_bytes()), show_value(&event), show_value(&meta), "-".to_string()]);
+    }
+    // stdlib: no state survives in a compiled program from one event to the next
+    let fns = vrl::stdlib::all();
+    let per_fn = (n / 60).max(2);
+    for f in &fns {
+        let name = f.identifier();
+        if crate::sweep::EXCLUDED.contains(&name) {
+            continue;
+        }
+        // functions taking a pattern (a literal-only kind that is usually compiled once) get more cases
+        let per_fn = if f.parameters().iter().any(|p| p.kind & crate::sweep::K_REGEX != 0) { per_fn * 6 } else { per_fn };
+        let mut emitted = 0;
+        let mut tries = 0;
+        while emitted < per_fn && tries < per_fn * 8 {
+            tries += 1;
+            let Some((src, ea, eb)) = gen_dynamic_call(f.as_ref(), rng) else { break };
+            let call = crate::sweep::Call { fname: name.to_string(), src, event: ea.clone(), shape: String::new() };
+            let Some(src) = crate::sweep::compilable(&call) else {
+                sink.count("c14:fn:rejected_by_compiler");
+                continue;
+            };
+            emitted += 1;
+            if let Some(r) = sink.emit("o.c14.fn", &[name.to_string(), hex(src.as_bytes()), show_value(&ea), show_value(&eb)]) {
+                sink.count(&format!("c14:fn:same={}", r.obs.first().cloned().unwrap_or_default()));
+            }
+        }
     }
 }
